@@ -4,10 +4,10 @@ SPEC = {
     "level": "exploration",
     "units": [
         {"name": "surgery", "pkg": O4, "kind": "rapid", "run": "^TestVerifC05Surgery$",
-         "quick": {"checks": 400, "shards": 4, "timeout": 300},
+         "quick": {"checks": 800, "shards": 8, "timeout": 300},
          "thorough": {"checks": 4000, "shards": 16, "timeout": 3000}},
         {"name": "blind", "pkg": O4, "kind": "rapid", "run": "^TestVerifC05Blind$",
-         "quick": {"checks": 150, "shards": 2, "timeout": 300},
+         "quick": {"checks": 250, "shards": 4, "timeout": 300},
          "thorough": {"checks": 1500, "shards": 8, "timeout": 3000}},
         {"name": "bit-enum", "pkg": O4, "kind": "plain", "run": "^TestVerifC05BitEnum$",
          "quick": {"shards": 4, "timeout": 300}, "thorough": {"shards": 16, "timeout": 3000}},
